@@ -80,4 +80,14 @@ def handleIterCount : List String → Option String
     pure s!"{m}\t{b2s (obs == m)}"
   | _ => none
 
+/-- `iterpass kind n script obs`: passes taken one after the other from one generator instance; by `C04_perm`
+    (every iteration, whatever the draws) each drained pass (`F`) yields `n` values, every element once -/
+def handleIterPass : List String → Option String
+  | [_kind, n, script, obs] => do
+    let n ← parseNat? n
+    let drained := (script.splitOn ",").filter (· == "F")
+    let m := ",".intercalate (drained.map (fun _ => s!"{n}:1"))
+    pure s!"{m}\t{b2s (obs == m)}"
+  | _ => none
+
 end Driver
